@@ -202,3 +202,27 @@ func TestC13NumberKeysByText(t *testing.T) {
 		t.Errorf("GetItem with the spelling 010 does not find the item stored under 10")
 	}
 }
+
+// KF-C16-unsupplied-placeholder: a placeholder the expressions use but the request does not supply is accepted.
+func TestC16UnsuppliedPlaceholder(t *testing.T) {
+	ctx := context.Background()
+	c := v2.NewClient()
+	if err := v2.AddTable(ctx, c, "tbl", "h", ""); err != nil {
+		t.Fatal(err)
+	}
+	S := func(v string) v2types.AttributeValue { return &v2types.AttributeValueMemberS{Value: v} }
+	tbl := "tbl"
+	if _, err := c.PutItem(ctx, &dynamodb.PutItemInput{TableName: &tbl, Item: map[string]v2types.AttributeValue{"h": S("a"), "v": S("1")}}); err != nil {
+		t.Fatal(err)
+	}
+	if _, err := c.PutItem(ctx, &dynamodb.PutItemInput{TableName: &tbl, Item: map[string]v2types.AttributeValue{"h": S("a"), "v": S("2")},
+		ConditionExpression: aws.String("v <> :missing")}); err == nil {
+		t.Errorf("a condition that uses :missing was accepted although the request supplies no values")
+	}
+	o, err := c.UpdateItem(ctx, &dynamodb.UpdateItemInput{TableName: &tbl, Key: map[string]v2types.AttributeValue{"h": S("a")},
+		UpdateExpression: aws.String("SET #n = :v"), ExpressionAttributeValues: map[string]v2types.AttributeValue{":v": S("9")}, ReturnValues: v2types.ReturnValueAllNew})
+	if err == nil {
+		_, literal := o.Attributes["#n"]
+		t.Errorf("SET #n = :v was accepted although the request supplies no names (an attribute literally named #n was written: %v)", literal)
+	}
+}
